@@ -12,6 +12,13 @@
 (*      every consecutive pair is a SafeStep (pairwise clauses of          *)
 (*      VersionUpgradeProp), every version change satisfies the            *)
 (*      chain-level clauses.                                               *)
+(*  ImportAppliesVerifier  InsertChain rejects a segment for its version   *)
+(*      state exactly when the PURE verifier (the real                     *)
+(*      core.VerifyYouVersionState, called by the driver on the same       *)
+(*      headers along the segment's real parent chain) rejects one of its  *)
+(*      headers, and at the same header; for probes: the set of single     *)
+(*      headers InsertChain accepts on a parent equals the set the pure    *)
+(*      verifier accepts.                                                  *)
 (***************************************************************************)
 EXTENDS VersionUpgradeProp, TLC, Json
 
@@ -20,7 +27,8 @@ TraceLog == ndJsonDeserialize("trace.ndjson")
 VARIABLES l, T, prev, viol, fired
 vars == <<l, T, prev, viol, fired>>
 
-NoTree == [P |-> [vr |-> 1, th |-> 1, minw |-> 0, maxw |-> 0], lookback |-> 8, num |-> [x \in {} |-> 0], ver |-> [x \in {} |-> <<>>]]
+NoTree == [P |-> [vr |-> 1, th |-> 1, minw |-> 0, maxw |-> 0], lookback |-> 8, num |-> [x \in {} |-> 0], ver |-> [x \in {} |-> <<>>],
+           par |-> [x \in {} |-> ""]]
 AddNew(vs, new) == vs \cup { v \in new : ~\E w \in vs : w[1] = v[1] /\ w[2] = v[2] }
 T2H(n, t) == Hdr(n, t[1], t[2], t[3], t[4], t[5])
 TreeHd(b) == T2H(T.num[b], T.ver[b])
@@ -46,11 +54,31 @@ AnsDisc(o, r, a) == {IF a = 0 THEN "no_answer" ELSE "wrong_version"}
 QueryViol(e, line) == { <<"ActiveVersionIsCanonical", AnsDisc(e.obs, e.lo + i - 1, e.ans[i]), line>> :
                            i \in { k \in DOMAIN e.ans : Back(e.lo + k - 1) <= e.obs.hn /\ e.ans[k] # SpecAnswer(e.obs, e.lo + k - 1) } }
 
+\* class of a header the two disagree on: c on top of p
+DisagreeDisc(p, c, dir) ==
+   {dir, IF <<c.cv, c.nv, c.ap, c.vb, c.so>> = <<p.cv, p.nv, p.ap, p.vb, p.so>> THEN "copy_of_parent_fields" ELSE "changed_fields",
+    IF p.nv # 0 /\ c.n = p.vb THEN "at_window_close" ELSE IF p.nv # 0 /\ c.n > p.vb THEN "after_window_close" ELSE "other_round"}
+\* import event: e.pure = index (from 0) of the first header the pure verifier rejects, -1 none, -2 real parent unknown;
+\* e.vidx = index InsertChain reports for a version-state failure, -1 none
+ImportViol(e, line) ==
+   IF e.pure = -2 \/ e.pure = e.vidx THEN {}
+   ELSE LET k == IF e.vidx = -1 \/ (e.pure # -1 /\ e.pure < e.vidx) THEN e.pure ELSE e.vidx     \* first disagreement
+            c == TreeHd(e.seg[k + 1])
+            p == TreeHd(T.par[e.seg[k + 1]]) IN
+        { <<"ImportAppliesVerifier", DisagreeDisc(p, c, IF k = e.pure THEN "import_accepts_rejected_header" ELSE "import_rejects_valid_header"), line>> }
+ProbeViol(e, line) ==
+   LET p == T2H(e.pn, e.pv)
+       pure == { e.pure[i] : i \in DOMAIN e.pure }
+       imp == { e.imp[i] : i \in DOMAIN e.imp } IN
+   { <<"ImportAppliesVerifier", DisagreeDisc(p, T2H(e.pn + 1, e.cands[k + 1]), "import_accepts_rejected_header"), line>> : k \in imp \ pure }
+   \cup { <<"ImportAppliesVerifier", DisagreeDisc(p, T2H(e.pn + 1, e.cands[k + 1]), "import_rejects_valid_header"), line>> : k \in pure \ imp }
+
 Switches(vs) == Cardinality({ i \in 2..Len(vs) : vs[i][1] # vs[i - 1][1] })
 Before(k) == IF k > 1 /\ "obs" \in DOMAIN TraceLog[k - 1] THEN TraceLog[k - 1].obs.vers ELSE <<>>
 \* the canonical chain changed below its old head (not a mere extension)
 IsReorg(b, o) == b # <<>> /\ \E i \in DOMAIN b : i \in DOMAIN o.vers /\ b[i] # o.vers[i]
-Zero == [Observations |-> 0, Queries |-> 0, Reorgs |-> 0, SetHeads |-> 0, Switches |-> 0, QueriesAfterReorg |-> 0]
+Zero == [Observations |-> 0, Queries |-> 0, Reorgs |-> 0, SetHeads |-> 0, Switches |-> 0, QueriesAfterReorg |-> 0,
+         ImportsJudged |-> 0, PureRejected |-> 0, Probes |-> 0]
 
 Init == l = 1 /\ T = NoTree /\ prev = <<>> /\ viol = {} /\ fired = Zero
 
@@ -58,11 +86,14 @@ Step ==
    /\ l <= Len(TraceLog)
    /\ l' = l + 1
    /\ LET e == TraceLog[l] IN
-      CASE e.ev = "tree" -> T' = [P |-> e.P, lookback |-> e.lookback, num |-> e.num, ver |-> e.ver] /\ prev' = <<>> /\ UNCHANGED <<viol, fired>>
+      CASE e.ev = "tree" -> T' = [P |-> e.P, lookback |-> e.lookback, num |-> e.num, ver |-> e.ver, par |-> e.par] /\ prev' = <<>> /\ UNCHANGED <<viol, fired>>
         [] e.ev \in {"import", "sethead", "query"} ->
-             /\ viol' = AddNew(viol, FoldCanon(e.obs.vers, 2, H0, {}, l) \cup (IF e.ev = "query" THEN QueryViol(e, l) ELSE {}))
+             /\ viol' = AddNew(viol, FoldCanon(e.obs.vers, 2, H0, {}, l) \cup (IF e.ev = "query" THEN QueryViol(e, l) ELSE {})
+                                     \cup (IF e.ev = "import" THEN ImportViol(e, l) ELSE {}))
              /\ fired' = [fired EXCEPT !.Observations = @ + 1,
                                        !.Queries = @ + (IF e.ev = "query" THEN 1 ELSE 0),
+                                       !.ImportsJudged = @ + (IF e.ev = "import" /\ e.pure # -2 THEN 1 ELSE 0),
+                                       !.PureRejected = @ + (IF e.ev = "import" /\ e.pure >= 0 THEN 1 ELSE 0),
                                        !.Reorgs = @ + (IF e.ev = "import" /\ IsReorg(Before(l), e.obs) THEN 1 ELSE 0),
                                        !.SetHeads = @ + (IF e.ev = "sethead" /\ e.err = "" THEN 1 ELSE 0),
                                        !.Switches = @ + Switches(e.obs.vers),
@@ -70,6 +101,10 @@ Step ==
              \* prev = the version fields of the canonical chain before the last import / rewind
              /\ prev' = IF e.ev = "query" THEN prev ELSE Before(l)
              /\ UNCHANGED T
+        [] e.ev = "probe" ->
+             /\ viol' = AddNew(viol, ProbeViol(e, l))
+             /\ fired' = [fired EXCEPT !.Probes = @ + Len(e.cands)]
+             /\ UNCHANGED <<T, prev>>
         [] OTHER -> UNCHANGED <<T, prev, viol, fired>>
 
 Spec == Init /\ [][Step]_vars
